@@ -17,7 +17,7 @@
     _convert_id_to_sbml. *)
 From Coq Require Import ZArith QArith List Bool String.
 Import ListNotations.
-From SbmlExp Require Import SbmlMath SbmlId SbmlDoc SbmlSession GenSbmlFacts ExpectedFacts SbmlMathProofs SbmlDocProofs SbmlSessionProofs.
+From SbmlExp Require Import SbmlMath SbmlId SbmlIdU SbmlDoc SbmlSession GenSbmlFacts ExpectedFacts SbmlMathProofs SbmlDocProofs SbmlSessionProofs SbmlIdUProofs.
 
 Theorem C08_facts_pinned :
   gen_facts = mkFacts
@@ -38,9 +38,14 @@ Theorem C08_facts_pinned :
     [(K_FUNCTION_LOG, 10%Z)]
     ["math"%string; "np"%string; "numpy"%string]
     [("e"%string, ME); ("pi"%string, MPi); ("inf"%string, MInf); ("nan"%string, MNan)]
-    Product NsSignAbs IaSetSymbol RenSimultaneous C08_expected_ref_id C08_expected_math_names true.
+    Product NsSignAbs IaSetSymbol RenSimultaneous C08_expected_ref_id C08_expected_math_names BodyAllLast true.
 Proof. vm_compute. reflexivity. Qed.
 Print Assumptions C08_facts_pinned.
+
+(** RE_TO_SBML escapes the complement of the explicit ASCII class [0-9_a-zA-Z] (not Python's Unicode-aware \W) *)
+Theorem C08_escape_pinned : gen_escape = EscAscii.
+Proof. vm_compute. reflexivity. Qed.
+Print Assumptions C08_escape_pinned.
 
 (** src/mxlpy/sbml/_import.py: read() parses, generates and imports on every call; how the generated module is loaded
     is the value coq/sbmlexp/ExpectedFacts.v expects for the tree (see there) *)
@@ -78,6 +83,60 @@ Theorem C08_math_sound :
     eval_ml ufn rho m = Some v.
 Proof. exact (tree_to_sbml_sound gen_facts (doc_good_math gen_facts C08_facts_good)). Qed.
 Print Assumptions C08_math_sound.
+
+(** FUNCTION BODIES WITH ANY STATEMENTS (closing pass): assignments that rebind a parameter or introduce a local
+    ([SAssign], Python semantics: the statements after it see the new value), bare returns, any other statement,
+    docstrings.  FULL statement (false of the code, see C08_last_statement_refuted: `return 1; return 7` is exported as 7):
+      forall fd args m v, tree_to_sbml gen_facts fd args = Ok m -> eval_fn fd args = Some v -> eval_ml m = Some v.
+    Proved for every body without unreachable statements (nothing follows the first `return`); the quantifier of the
+    property ("single-expression rate-law shapes") is the special case [filter ... = [SReturn e]] of C08_math_sound *)
+Theorem C08_any_body_sound_partial :
+  forall (ufn : rfun -> list Q -> option Q) (rho : N -> option Q) (fd : fundef) (args : list N) (m : ml) (v : Q),
+    no_dead_code (filter (fun s => negb (is_doc s)) (fd_body fd)) = true ->
+    tree_to_sbml gen_facts fd args = Ok m ->
+    eval_fn ufn rho fd args = Some v ->
+    eval_ml ufn rho m = Some v.
+Proof. exact (tree_to_sbml_sound_body gen_facts (doc_good_math gen_facts C08_facts_good)). Qed.
+Print Assumptions C08_any_body_sound_partial.
+
+(** ... because a body with ANY statement that is not `return <expr>` -- an intermediate assignment, a bare return, an
+    if / for / augmented assignment -- makes the export raise: nothing is silently dropped *)
+Theorem C08_non_return_statement_refused :
+  forall (fd : fundef) (args : list N) (s : stmt),
+    In s (filter (fun s => negb (is_doc s)) (fd_body fd)) -> is_return_expr s = false ->
+    exists er : err, tree_to_sbml gen_facts fd args = Err er.
+Proof. exact (non_return_refused gen_facts (doc_good_math gen_facts C08_facts_good)). Qed.
+Print Assumptions C08_non_return_statement_refused.
+
+(** regression (seeded C08-4): a _handle_body that converts only the LAST statement exports the saturating law
+      def f(s, vmax, km): s = s / (km + s); return vmax * s
+    as vmax * s: 12/5 becomes 6 *)
+Theorem C08_last_only_refuted :
+  exists (fd : fundef) (args : list N) (m : ml),
+    no_dead_code (fd_body fd) = true
+    /\ tree_to_sbml (set_body BodyLastOnly gen_facts) fd args = Ok m
+    /\ eval_fn no_fn rho_sat fd args = Some (12 # 5) /\ eval_ml no_fn rho_sat m = Some 6.
+Proof. exact last_only_refuted. Qed.
+Print Assumptions C08_last_only_refuted.
+
+(** LIBRARY-SPECIFIC FUNCTIONS (closing pass): the call tables are looked up by attribute name only, whatever the library
+    (math / np / numpy); `remainder` is the one name that means two different functions -- numpy.remainder is the floored
+    modulo, math.remainder the IEEE 754 remainder.  [eval_py] gives each its own meaning ([py_fn lib]); C08_facts_good
+    demands every table entry to be right for EVERY library.  On the tree every two-argument remainder call is refused: *)
+Theorem C08_remainder_refused :
+  forall p : string,
+    exists er : err, conv gen_facts (ECallAttr p "remainder" (ECons (EName 0) (ECons (EInt 3) ENil)) false) = Err er.
+Proof. exact remainder_refused. Qed.
+Print Assumptions C08_remainder_refused.
+
+(** regression (seeded C08-6): with "remainder" moved from UNARY to BINARY, math.remainder(x, 3) at x = 5 is -1 and the
+    exported <rem/> is 2 ([rem_fn] computes both remainders exactly) *)
+Theorem C08_math_remainder_as_rem_refuted :
+  exists (e : expr) (m : ml),
+    conv (remainder_binary gen_facts) e = Ok m
+    /\ eval_py rem_fn (at_ 5) e = Some (-1 # 1) /\ eval_ml rem_fn (at_ 5) m = Some (2 # 1).
+Proof. exact math_remainder_refuted. Qed.
+Print Assumptions C08_math_remainder_as_rem_refuted.
 
 (** a construct the exporter cannot represent makes the export raise: the converter accepts
     EXACTLY the expressions built from table entries ([supported]: every operator, comparison,
@@ -159,6 +218,31 @@ Theorem C08_id_total :
   forall prefix s : string, s <> EmptyString -> exists t : string, convert_id prefix s = Ok t.
 Proof. exact id_total. Qed.
 Print Assumptions C08_id_total.
+
+(** NAMES WITH ARBITRARY CODE POINTS (closing pass; [convert_id_u] = _convert_id_to_sbml over code points, Python's Unicode
+    tables `\w` / str.isalpha as arbitrary functions [uword] / [ualpha]): every non-empty name -- Greek letters, digits of
+    other scripts, anything -- gets a LEGAL SBML SId (a letter or underscore followed by ASCII letters, digits, underscores), so libSBML's setId cannot reject it *)
+Theorem C08_id_legal_sid :
+  forall (uword ualpha : N -> bool) (prefix s : list N),
+    s <> [] -> legal_sid prefix = true ->
+    exists t : list N, convert_id_u uword ualpha gen_escape prefix s = Ok t /\ legal_sid t = true.
+Proof. exact (fun uword ualpha => id_legal_at uword ualpha gen_escape C08_escape_pinned). Qed.
+Print Assumptions C08_id_legal_sid.
+
+(** regression (seeded C08-5): with Python's Unicode-aware \W as the escaped class, 's' + GREEK SMALL LETTER ALPHA keeps
+    the alpha and is not a legal SId; the two classes agree on pure ASCII names (why no ASCII test notices) *)
+Theorem C08_unicode_word_class_refuted :
+  exists s t : list N,
+    s <> [] /\ convert_id_u (N.eqb 945) (N.eqb 945) EscUnicodeWord [67; 80; 68]%N s = Ok t /\ legal_sid t = false.
+Proof. exact unicode_word_refuted. Qed.
+Print Assumptions C08_unicode_word_class_refuted.
+
+Theorem C08_unicode_word_class_partial :
+  forall (uword ualpha : N -> bool) (prefix s : list N),
+    forallb (fun c : N => N.ltb c 128) s = true ->
+    convert_id_u uword ualpha EscUnicodeWord prefix s = convert_id_u uword ualpha EscAscii prefix s.
+Proof. exact convert_ascii_agree. Qed.
+Print Assumptions C08_unicode_word_class_partial.
 
 (** IDENTIFIERS INSIDE THE DOCUMENT.  FULL statement: wherever the exporter refers to a component (inside the math, as the
     symbol of an initial assignment, as the id of a computed species reference vs. the variable of its rule) it uses the
@@ -444,5 +528,22 @@ Proof.
   cbv zeta. split; [|split].
   - eexists. split; [vm_compute; reflexivity|]. split; vm_compute; reflexivity.
   - eexists. split; [vm_compute; reflexivity|]. split; vm_compute; reflexivity.
+  - vm_compute. reflexivity.
+Qed.
+
+(** non-vacuity of the closing-pass statements: a body with a docstring and one return has no dead code and is exported;
+    the saturating law with an intermediate assignment has no dead code, has a Python value and IS refused; a name with a
+    Greek letter gets the legal id s__945__ *)
+Example C08_closing_nonvacuous :
+  (no_dead_code (filter (fun s => negb (is_doc s)) (fd_body saturating_law)) = true
+   /\ eval_fn no_fn rho_sat saturating_law [100; 200; 201]%N = Some (12 # 5)
+   /\ exists er, tree_to_sbml gen_facts saturating_law [100; 200; 201]%N = Err er)
+  /\ (exists m, tree_to_sbml gen_facts (mkFun [0]%N [SDoc; SReturn (EBin BMul (EName 0) (EInt 2))]) [100]%N = Ok m
+                /\ eval_ml no_fn rho_sat m = Some 4)
+  /\ convert_id_u (N.eqb 945) (N.eqb 945) gen_escape [67; 80; 68]%N [115; 945]%N = Ok [115; 95; 95; 57; 52; 53; 95; 95]%N.
+Proof.
+  split; [|split].
+  - split; [vm_compute; reflexivity|]. split; [vm_compute; reflexivity|]. exact saturating_law_refused.
+  - eexists. split; [vm_compute; reflexivity|]. vm_compute. reflexivity.
   - vm_compute. reflexivity.
 Qed.
